@@ -241,6 +241,10 @@ func (s *TermStore) Bin(op Op, a, b *Term) *Term {
 	if isCommutative(op) && a.IsConst() {
 		a, b = b, a
 	}
+	if b.IsConst() && a.Op == OpSelect {
+		bk := b.K
+		return s.mapTable(a, w, func(v uint64) uint64 { r, _ := foldBin(op, w, v, bk); return r })
+	}
 	if b.IsConst() {
 		switch op {
 		case OpAdd, OpSub, OpOr, OpXor, OpShl, OpLShr, OpAShr:
@@ -330,6 +334,8 @@ func (s *TermStore) Extract(a *Term, hi, lo int) *Term {
 		return s.Const(w, a.K>>uint(lo))
 	}
 	switch a.Op {
+	case OpSelect:
+		return s.mapTable(a, w, func(v uint64) uint64 { return v >> uint(lo) })
 	case OpZExt, OpSExt:
 		x := a.Args[0]
 		if hi < x.W {
@@ -410,6 +416,9 @@ func (s *TermStore) ZExt(a *Term, w int) *Term {
 	if a.Op == OpZExt {
 		return s.ZExt(a.Args[0], w)
 	}
+	if a.Op == OpSelect && w <= 64 {
+		return s.mapTable(a, w, func(v uint64) uint64 { return v })
+	}
 	if a.Op == OpIte && (a.Args[1].IsConst() && a.Args[2].IsConst()) {
 		return s.Ite(a.Args[0], s.ZExt(a.Args[1], w), s.ZExt(a.Args[2], w))
 	}
@@ -428,6 +437,10 @@ func (s *TermStore) SExt(a *Term, w int) *Term {
 	}
 	if a.Op == OpZExt {
 		return s.ZExt(a.Args[0], w) // top bit of a is zero
+	}
+	if a.Op == OpSelect {
+		aw := a.W
+		return s.mapTable(a, w, func(v uint64) uint64 { return uint64(signExt(v, aw)) })
 	}
 	return s.mk(OpSExt, w, 0, "", a)
 }
@@ -500,6 +513,49 @@ func (s *TermStore) Cmp(op Op, a, b *Term) *Term {
 		default:
 			return s.False
 		}
+	}
+	if (a.Op == OpSelect && b.IsConst()) || (b.Op == OpSelect && a.IsConst()) {
+		sel, k, selLeft := a, b.K, true
+		if b.Op == OpSelect {
+			sel, k, selLeft = b, a.K, false
+		}
+		t := s.tabs[sel.K]
+		w := sel.W
+		allT, allF := true, true
+		vals := make([]uint64, len(t.Vals))
+		for i, v := range t.Vals {
+			x, y := v, k
+			if !selLeft {
+				x, y = k, v
+			}
+			var r bool
+			switch op {
+			case OpEq:
+				r = x == y
+			case OpULt:
+				r = x < y
+			case OpULe:
+				r = x <= y
+			case OpSLt:
+				r = signExt(x, w) < signExt(y, w)
+			case OpSLe:
+				r = signExt(x, w) <= signExt(y, w)
+			}
+			if r {
+				vals[i] = 1
+				allF = false
+			} else {
+				allT = false
+			}
+		}
+		if allT {
+			return s.True
+		}
+		if allF {
+			return s.False
+		}
+		bit := s.Select(s.NewTable(1, vals), sel.Args[0])
+		return s.mk(OpEq, 0, 0, "", bit, s.Const(1, 1))
 	}
 	if a.W == 0 {
 		if op != OpEq {
@@ -748,7 +804,58 @@ func (s *TermStore) Select(t *Table, idx *Term) *Term {
 	if idx.IsConst() {
 		return s.Const(t.ElemW, t.Vals[idx.K])
 	}
+	// composition of constant tables: T[U[x]] = (T∘U)[x]
+	if idx.Op == OpSelect {
+		u := s.tabs[idx.K]
+		vals := make([]uint64, len(u.Vals))
+		for k, uv := range u.Vals {
+			vals[k] = t.Vals[uv&mask(t.IdxW)]
+		}
+		return s.Select(s.NewTable(t.ElemW, vals), idx.Args[0])
+	}
+	if idx.Op == OpExtract && idx.Args[0].Op == OpSelect && idx.K&0xff == 0 {
+		u := s.tabs[idx.Args[0].K]
+		vals := make([]uint64, len(u.Vals))
+		for k, uv := range u.Vals {
+			vals[k] = t.Vals[uv&mask(t.IdxW)]
+		}
+		return s.Select(s.NewTable(t.ElemW, vals), idx.Args[0].Args[0])
+	}
+	// identity table
+	ident := t.ElemW >= t.IdxW
+	if ident {
+		for k, v := range t.Vals {
+			if v != uint64(k) {
+				ident = false
+				break
+			}
+		}
+	}
+	if ident {
+		return s.ZExt(idx, t.ElemW)
+	}
+	// constant table
+	allSame := true
+	for _, v := range t.Vals {
+		if v != t.Vals[0] {
+			allSame = false
+			break
+		}
+	}
+	if allSame {
+		return s.Const(t.ElemW, t.Vals[0])
+	}
 	return s.mk(OpSelect, t.ElemW, uint64(t.ID), "", idx)
+}
+
+// mapTable applies f to every entry of the table selected by sel.
+func (s *TermStore) mapTable(sel *Term, w int, f func(uint64) uint64) *Term {
+	t := s.tabs[sel.K]
+	vals := make([]uint64, len(t.Vals))
+	for k, v := range t.Vals {
+		vals[k] = f(v) & mask(w)
+	}
+	return s.Select(s.NewTable(w, vals), sel.Args[0])
 }
 
 // UF applies an uninterpreted function. resW == 0 means Bool result.
